@@ -23,6 +23,7 @@ import (
 	"google.golang.org/grpc"
 	"google.golang.org/grpc/codes"
 	"google.golang.org/grpc/credentials/insecure"
+	"google.golang.org/grpc/encoding"
 	"google.golang.org/grpc/internal/zzverif/vlib"
 	"google.golang.org/grpc/internal/zzverif/vlib/rawh2"
 	"google.golang.org/grpc/metadata"
@@ -43,7 +44,14 @@ type rpcState struct {
 	cl      atomic.Int32 // 98 not started, 99 no result yet, else code
 	release chan int
 	cancel  context.CancelFunc
+	big     bool          // late reader: the handler sends bigSize bytes, the client reads on the "read" step
+	readCh  chan struct{} // closed by the "read" step
+	dl      atomic.Int32  // bytes of response data the client application received
 }
+
+// bigSize is larger than the client's stream flow-control window (65535): the response of a late
+// reader stays queued in the server transport until the client application reads.
+const bigSize = 150 * 1024
 
 type env struct {
 	nc, nr, limit int
@@ -96,6 +104,13 @@ func (e *env) handle(_ any, ss grpc.ServerStream) error {
 			k = int(codes.Canceled)
 		}
 	}
+	if first(md, "c25-big") == "1" {
+		msg := make([]byte, bigSize)
+		if err := ss.SendMsg(&msg); err != nil && os.Getenv("C25_DEBUG") != "" {
+			fmt.Println("C25_DEBUG SendMsg:", err)
+		}
+		// queued behind the client's flow control (fails if the transport is gone)
+	}
 	close(exit)
 	// counted as not running before the handler returns, hence before the quota is released:
 	// the counter never exceeds the real number of running handlers
@@ -109,6 +124,8 @@ func (e *env) handle(_ any, ss grpc.ServerStream) error {
 	}
 	return status.Error(codes.Code(k), "c25 handler status")
 }
+
+func init() { encoding.RegisterCodec(rawh2.RawCodec{}) } // the server needs the codec to send the big message
 
 func first(md metadata.MD, k string) string {
 	if v := md.Get(k); len(v) > 0 {
@@ -130,40 +147,57 @@ func (e *env) observe(s step) map[string]any {
 	h := make([][]string, e.nc)
 	cx := make([][]bool, e.nc)
 	cl := make([][]int, e.nc)
+	dl := make([][]int, e.nc)
 	for c := 0; c < e.nc; c++ {
 		for r := 0; r < e.nr; r++ {
 			rs := e.rpc[c][r]
 			h[c] = append(h[c], hnames[rs.h.Load()])
 			cx[c] = append(cx[c], rs.cx.Load())
 			cl[c] = append(cl[c], int(rs.cl.Load()))
+			dl[c] = append(dl[c], int(rs.dl.Load()))
 		}
 	}
 	e.mu.Lock()
 	maxrun := append([]int(nil), e.maxrun...)
 	e.mu.Unlock()
-	return map[string]any{"ev": "step", "a": s.A, "c": s.C, "r": s.R, "k": s.K, "h": h, "cx": cx, "cl": cl,
+	return map[string]any{"ev": "step", "a": s.A, "c": s.C, "r": s.R, "k": s.K, "h": h, "cx": cx, "cl": cl, "dl": dl,
 		"gs": snames[e.gs.Load()], "sr": snames[e.sr.Load()], "maxrun": maxrun, "gsrun": int(e.gsrun.Load())}
 }
 
 func (e *env) apply(s step) {
 	switch s.A {
-	case "start":
+	case "start", "startbig":
 		rs := e.rpc[s.C-1][s.R-1]
 		ctx := metadata.AppendToOutgoingContext(context.Background(), "c25-c", strconv.Itoa(s.C), "c25-r", strconv.Itoa(s.R))
+		if s.A == "startbig" {
+			rs.big = true
+			ctx = metadata.AppendToOutgoingContext(ctx, "c25-big", "1")
+		}
 		ctx, rs.cancel = context.WithCancel(ctx)
 		rs.cl.Store(99)
 		cc := e.cc[s.C-1]
 		go func() {
 			cs, err := cc.NewStream(ctx, &grpc.StreamDesc{ClientStreams: true, ServerStreams: true}, "/c25.S/M")
-			if err == nil {
+			if err == nil && rs.big {
+				// the application reads late: on the driver's "read" step (or when it cancels)
+				select {
+				case <-rs.readCh:
+				case <-ctx.Done():
+				}
+			}
+			for err == nil {
 				var in []byte
-				err = cs.RecvMsg(&in)
+				if err = cs.RecvMsg(&in); err == nil {
+					rs.dl.Add(int32(len(in)))
+				}
 			}
 			if err == io.EOF {
 				err = nil
 			}
 			rs.cl.Store(int32(status.Code(err)))
 		}()
+	case "read":
+		close(e.rpc[s.C-1][s.R-1].readCh)
 	case "cancel":
 		e.rpc[s.C-1][s.R-1].cancel()
 	case "finish":
@@ -233,6 +267,7 @@ func runBehaviour(t *testing.T, tr *trace, steps []step, nc, nr, limit int) {
 		for c := 0; c < nc; c++ {
 			cc, err := grpc.NewClient("passthrough:///c25", grpc.WithTransportCredentials(insecure.NewCredentials()),
 				grpc.WithContextDialer(func(ctx context.Context, _ string) (net.Conn, error) { return e.lis.DialContext(ctx) }),
+				grpc.WithInitialWindowSize(65535),
 				grpc.WithDefaultCallOptions(grpc.ForceCodec(rawh2.RawCodec{})))
 			if err != nil {
 				panic(err)
@@ -240,7 +275,7 @@ func runBehaviour(t *testing.T, tr *trace, steps []step, nc, nr, limit int) {
 			e.cc = append(e.cc, cc)
 			var row []*rpcState
 			for r := 0; r < nr; r++ {
-				rs := &rpcState{release: make(chan int, 1), cancel: func() {}}
+				rs := &rpcState{release: make(chan int, 1), cancel: func() {}, readCh: make(chan struct{})}
 				rs.cl.Store(98)
 				row = append(row, rs)
 			}
